@@ -184,7 +184,8 @@ def check(prog: Program, tier: str) -> Result:
     _r18_19(prog, res)
     _r18_20(prog, res)
     _r18_21(prog, res)
-    res.floors.update({"R18.1": 6, "R18.2": 2, "R18.4": 1, "R18.5": 1, "R18.10": 3, "R18.11": 2, "R18.12": 1, "R18.13": 5, "R18.14": 2, "R18.15": 4, "R18.16": 1, "R18.17": 2, "R18.18": 1, "R18.19": 1, "R18.20": 1, "R18.21": 3})
+    _r18_22(prog, res)
+    res.floors.update({"R18.1": 6, "R18.2": 2, "R18.4": 1, "R18.5": 1, "R18.10": 3, "R18.11": 2, "R18.12": 1, "R18.13": 5, "R18.14": 2, "R18.15": 4, "R18.16": 1, "R18.17": 2, "R18.18": 1, "R18.19": 1, "R18.20": 1, "R18.21": 3, "R18.22": 1})
     res.analysed["importfrom_constructions"] = n
     return res
 
@@ -796,6 +797,77 @@ def _r18_20(prog: Program, res: Result) -> None:
 
 
 # ------------------------------------------------------------------------------------------------ R18.21
+def _r18_22(prog: Program, res: Result) -> None:
+    """`from os import *` binds `open`; from there on the module's `open` is os.open.  The rule that narrows a star import to the names
+    the module takes from it asks the origin tracer for a set of candidate names.  If every operand of that set has the builtin names
+    subtracted (the undefined-name analysis does: a builtin is never "undefined"), a builtin name that the star import rebinds is
+    never a candidate, the narrowed import leaves it out, and the name falls back to the builtin.  Obligation: the candidates of the
+    narrowing loop (the iterable of the `for` whose body calls the tracer and records names per star import) contain an operand that is
+    NOT free of builtins: one whose defining expression intersects with the builtin table, or a producer that does not subtract it."""
+    from ..defuse import bindings
+    n = 0
+    for fn in prog.funcs.values():
+        if not fn.is_fix or fn.mod.name != "tracing":
+            continue
+        for lp in walk_own(fn.node):
+            if not (isinstance(lp, ast.For) and isinstance(lp.target, ast.Name)):
+                continue
+            traces = [c for c in ast.walk(lp) if isinstance(c, ast.Call) and norm(c.func).split(".")[-1] == "trace_origin" and c.args and isinstance(c.args[0], ast.Name) and c.args[0].id == lp.target.id]
+            records = [c for c in ast.walk(lp) if isinstance(c, ast.Call) and isinstance(c.func, ast.Attribute) and c.func.attr == "add" and c.args and isinstance(c.args[0], ast.Name) and c.args[0].id == lp.target.id]
+            if not (traces and records):
+                continue
+            it = lp.iter
+            while isinstance(it, ast.Call) and norm(it.func) in ("sorted", "list", "tuple", "set", "frozenset") and it.args:
+                it = it.args[0]
+            operands: List[ast.AST] = []
+            todo = [it]
+            while todo:
+                x = todo.pop()
+                if isinstance(x, ast.BinOp) and isinstance(x.op, ast.BitOr):
+                    todo += [x.left, x.right]
+                else:
+                    operands.append(x)
+            n += 1
+
+            def builtin_free(e: ast.AST, depth: int = 0) -> bool:
+                """True when the value of e cannot hold the name of a builtin."""
+                if depth > 3:
+                    return False
+                if isinstance(e, ast.Name):
+                    defs = [v for _s, v in bindings(fn).get(e.id, []) if v is not None]
+                    return bool(defs) and all(builtin_free(v, depth + 1) for v in defs)
+                if isinstance(e, ast.BinOp) and isinstance(e.op, ast.Sub):
+                    return "BUILTIN_FUNCTIONS" in norm(e.right) or builtin_free(e.left, depth + 1)
+                if isinstance(e, ast.BinOp) and isinstance(e.op, ast.BitAnd):
+                    return "BUILTIN_FUNCTIONS" not in norm(e) and (builtin_free(e.left, depth + 1) or builtin_free(e.right, depth + 1))
+                if isinstance(e, ast.Call):
+                    if norm(e.func) in ("set", "frozenset", "sorted") and e.args:
+                        return builtin_free(e.args[0], depth + 1)
+                    r = prog.resolve_call(e.func, fn.mod, fn)
+                    if r and r[0] == "fn":
+                        rets = [x.value for x in walk_own(r[1].node) if isinstance(x, ast.Return) and x.value is not None]
+                        return bool(rets) and all(_subtracts_builtins(v) for v in rets)
+                return False
+            holders = [o for o in operands if not builtin_free(o)]
+            # an operand made from the option `preserve` holds what OTHER files want, not what this module reads: it is no witness
+            reads = [o for o in holders if not any(isinstance(v, ast.AST) and "preserve" in norm(v) for nm in ([o.id] if isinstance(o, ast.Name) else []) for _s, v in bindings(fn).get(nm, []) if v is not None)
+                     and "preserve" not in norm(o)]
+            res.decide(bool(reads), "R18.22", fn.loc(lp), fn.fq, f"{short(lp.iter, 70)} # names traced to the star imports",
+                       f"the candidates include names of builtins the module reads ({short(reads[0], 40)})" if reads else
+                       "every operand of the candidate set has the builtin names subtracted: after `from os import *` the module's `open` is os.open, it is never traced to the "
+                       "star import, the narrowed import leaves it out and `open` becomes the builtin")
+    if n == 0:
+        res.undecided("R18.22", "pyrefact/tracing.py:0", "tracing", "the loop that traces names to star imports", "none found (fix_starred_imports is expected)")
+
+
+def _subtracts_builtins(e: ast.AST) -> bool:
+    while isinstance(e, ast.BinOp) and isinstance(e.op, ast.Sub):
+        if "BUILTIN_FUNCTIONS" in norm(e.right):
+            return True
+        e = e.left
+    return False
+
+
 def _r18_21(prog: Program, res: Result) -> None:
     """`.module` of an ImportFrom names a module only together with `.level`: `from .json import loads` and `from json import loads`
     have the same module text.  R18.1 follows the pair into constructed nodes and grouping dictionaries; this rule covers every
@@ -1263,6 +1335,13 @@ def _r18_6(prog: Program, res: Result) -> None:
 from ..selftest import Variant  # noqa: E402
 
 VARIANTS = [
+    Variant("builtin-names-never-traced-to-a-star-import", "FIRE", "tracing",
+            "    for name in sorted(undefined_names | passed_on_names | shadowed_builtins):", "    for name in sorted(undefined_names | passed_on_names):", "R18.22"),
+    Variant("builtin-names-subtracted-again", "FIRE", "tracing",
+            "    for name in sorted(undefined_names | passed_on_names | shadowed_builtins):", "    for name in sorted((undefined_names | passed_on_names | shadowed_builtins) - constants.BUILTIN_FUNCTIONS):", "R18.22"),
+    Variant("read-names-minus-own-bindings-as-candidates", "SILENT", "tracing",
+            "    for name in sorted(undefined_names | passed_on_names | shadowed_builtins):",
+            "    read_and_not_bound_here = _get_referenced_names(root) - get_defined_names(root) - get_imported_names(root)\n    for name in sorted(read_and_not_bound_here | passed_on_names):"),
     Variant("origin-answered-without-the-census-of-stores", "FIRE", "tracing", "    if _is_bound_in_a_way_that_is_not_read(name, root):\n        return None  # x += 1, for x in ..: where its value comes from cannot be said\n\n", "", "R18.19"),
     Variant("export-model-answers-without-the-census", "FIRE", "tracing", "        if _export_list_is_opaque(root):\n            return None  # Neither \"exported\" nor \"not exported\" can be said of any name\n\n", "", "R18.13"),
     Variant("star-import-predicate-without-the-census", "FIRE", "tracing", "    return _export_list_is_opaque(origin_root)\n", "    return False\n", "R18.13"),
